@@ -1366,6 +1366,13 @@ class Engine(object):
       log.info("Failed to apply useractions; reverting: %r", e)
       # The failure may have interrupted a recalculation.
       self._in_update_loop = False
+      # Values recalculated so far but not yet turned into actions need reverting too (a data
+      # column just made into a formula column has its data only there).
+      try:
+        self._post_update()
+        self.out_actions.flush_calc_changes()
+      except Exception:
+        log.error("Failed to collect calculated changes for revert: %s", traceback.format_exc())
       self._undo_to_checkpoint(checkpoint)
 
       # The revert has restored the cells of data columns; leaving their trigger formulas scheduled
